@@ -462,7 +462,10 @@ def gen_rankcmp(repo):
     width = {"u8": 256, "u16": 65536, "u32": 2**32, "usize": 2**64}[m.group(2)]
     L.append(f"def rankModulus : Nat := {width}")
     em = fn_body(src, r'fn emoji\(item: String\) -> Self', item)
-    m = re.fullmatch(r'\s*Rank::Emoji\(item, (\d+)\)\s*', em)
+    m = re.fullmatch(r'\s*(?:Rank|Self)::(?:Emoji|emoji_ranked)\(item, (\d+)\)\s*', em)      # directly, or through the ranked constructor
+    if m and "emoji_ranked" in em:
+        er = fn_body(src, r'fn emoji_ranked\(item: String, rank: u8\) -> Self', item)
+        if not re.fullmatch(r'\s*(?:Rank|Self)::Emoji\(item, rank\)\s*', er): raise Fail(item, "Rank::emoji_ranked shape")
     if not m: raise Fail(item, "Rank::emoji shape")
     L.append(f"def emojiDefaultRank : Nat := {m.group(1)}")
     L.append("end Riti.Gen")
